@@ -262,7 +262,7 @@ func checkC11(c *Ctx) {
 			vl = &Valuation{
 				Typed: true,
 				Enter: func(g *ssa.Function) bool {
-					return g != nil && g.Blocks != nil && PkgPathOf(g) == ExprPkg && NameOf(g) == "Bits"
+					return g != nil && g.Blocks != nil && ((PkgPathOf(g) == ExprPkg && NameOf(g) == "Bits") || PkgPathOf(g) == tpkg)
 				},
 				Int: func(v ssa.Value) (int64, bool) {
 					if v == ssa.Value(sm.Params[0]) {
